@@ -182,7 +182,7 @@ pub fn run(ctx: &Ctx) -> i32 {
         rep.inconclusive.push(format!("identifier harvest is implausibly small: {:?}", pool));
         return rep.finish();
     }
-    let n = ctx.scale(1500, 12000);
+    let n = ctx.scale(4000, 12000);
     let trees = check::draw(ctx.seed, 0xC19, n, 540);
     let mut cases: Vec<(usize, Case)> = Vec::new();
     for (i, t) in trees.iter().enumerate() {
@@ -222,7 +222,7 @@ pub fn run(ctx: &Ctx) -> i32 {
     // ---- E2 over every trait (compile only): stand-alone Copy / Eq / Ord and the other trait sets the behavioural
     // observers do not reach, inside the shadowing module
     {
-        let n2 = ctx.scale(1000, 8000);
+        let n2 = ctx.scale(2500, 8000);
         let trees2 = check::draw(ctx.seed, 0xC192, n2, 520);
         let mut cfg2 = GenCfg::full();
         cfg2.plain_types_only = true;
@@ -269,7 +269,7 @@ pub fn run(ctx: &Ctx) -> i32 {
         check::clean_work("C19-e2c");
     }
     // ---- E1: #![no_std] library, compile only
-    let n1 = ctx.scale(1000, 8000);
+    let n1 = ctx.scale(2500, 8000);
     let trees1 = check::draw(ctx.seed, 0xC191, n1, 520);
     let mut cfg = GenCfg::full();
     cfg.plain_types_only = true;
